@@ -11,16 +11,17 @@ func init() {
 	register(&Property{
 		ID: "C10", Level: "exploration",
 		Rule: "server side: a state machine serves 1-2 connections; each peer history is a drawn sequence (length 1-12, bursts and fragments) over {acceptable CER, rejected CER, retransmitted CER, DWR, application requests/answers of several applications, CEA}, with the CEA write failing at drawn points; application handlers are registered by short name, by index and as catch-all, and registrations of CER/CEA/DWR keys are attempted; a reference gate decides, per message, which handler may run. " +
-			"client side: a scripted server sends application messages before, instead of and after its CEA. non-trivial = the history contains an application message both before and after a CER; distinct = hash of the item-kind sequence. Thorough: all server-side histories up to length 4 over 9 item kinds.",
+			"client side: a scripted server sends application messages before, instead of and after its CEA; one Client dials a second connection while the first stays in use, with CEAs arriving on the first and application messages on the second. non-trivial = the history contains an application message both before and after a CER; distinct = hash of the item-kind sequence. Thorough: all server-side histories up to length 4 over 9 item kinds.",
 		Real: smReal, Stubbed: smStub,
 		Assume: []string{"handshaken (server side) = a success CEA was written without error"},
 		Scenarios: []*Scenario{
 			{Name: "server-gate", Weight: 3, Bubble: true, Run: func(e *Env) { smaRun(e, "C10") }},
 			{Name: "client-gate", Weight: 2, Bubble: true, Run: c10Client},
+			{Name: "client-two-connections", Weight: 1, Bubble: true, Run: c10ClientTwo},
 			{Name: "sweep-histories", Bubble: true, Run: smaSweepHist, SweepN: smaSweepHistN, Exhaustive: true,
 				SweepNote: "all sequences of length <= 4 over {acceptable CER, CER rejected for no common application, CER rejected for security, retransmitted CER, DWR, application request (name-registered), application request (index-registered), application answer, CER whose CEA write fails}"},
 		},
-		MustProbes: []string{"handshake-ok", "cer-rejected", "cea-write-failed", "app-handler-after-handshake", "refused-registration", "cer-retransmission-ignored", "app-before-cea-blocked", "app-behind-cea-dispatched"},
+		MustProbes: []string{"handshake-ok", "cer-rejected", "cea-write-failed", "app-handler-after-handshake", "refused-registration", "cer-retransmission-ignored", "app-before-cea-blocked", "app-behind-cea-dispatched", "cea-on-other-connection-during-dial", "second-connection-handshaken"},
 	})
 	register(&Property{
 		ID: "C11", Level: "fault_enumeration",
